@@ -67,9 +67,12 @@ def stepCall (s : St) (a : Actor) (op : Op) : Option St :=
 /-- the `waiter_mutex` test at the start of the critical section (plain memory, under L) -/
 def afterAcquire (s : St) (a : Actor) : St :=
   let m := opMutex (s.op a)
-  match s.waiterMutex with
-  | none => setC { s with waiterMutex := some m } a .wUnlock
-  | some w => if w = m then setC s a .wUnlock else setC s a .wBadRel
+  { s with waiterMutex := (if s.waiterMutex = none then some m else s.waiterMutex),
+           cpc := upd s.cpc a (if s.waiterMutex = none ∨ s.waiterMutex = some m then .wUnlock else .wBadRel) }
+
+/-- a wait-list step may have completed the wait of actor `n` (its wait-list pc is back to idle) -/
+def finishWait (s : St) (w : WaitList.St) (n : Actor) : St :=
+  { s with wl := w, cpc := if s.cpc n = .wWaiting ∧ w.pc n = .idle then upd s.cpc n .wRelock else s.cpc }
 
 def stepMutexUnlock (s : St) (a : Actor) (m : MutexId) : Option St :=
   if s.cpc a = .wUnlock ∧ m = opMutex (s.op a) ∧ s.mholder m = some a then
@@ -101,11 +104,12 @@ def stepWl (s : St) (e : WaitList.Ev) : Option St :=
     else if s.cpc a = .sBegin then (WaitList.step s.wl e).map fun w => setC { s with wl := w } a .sAcq
     else none
   | .tasL a old =>
-    (WaitList.step s.wl e).map fun w =>
-      let s1 := { s with wl := w }
-      if old = false ∧ s.cpc a = .wAcq then afterAcquire s1 a
-      else if old = false ∧ s.cpc a = .sAcq then setC s1 a .sCs
-      else s1
+    if s.cpc a = .wAcq then
+      (WaitList.step s.wl e).map fun w => if old = false then afterAcquire { s with wl := w } a else { s with wl := w }
+    else if s.cpc a = .sAcq then
+      (WaitList.step s.wl e).map fun w => if old = false then setC { s with wl := w } a .sCs else { s with wl := w }
+    else if s.cpc a = .wWaiting then (WaitList.step s.wl e).map fun w => { s with wl := w }
+    else none
   | .enq a t =>
     if s.cpc a = .wEnq ∧ t = isTimed (s.op a) then
       (WaitList.step s.wl e).map fun w => setC { s with wl := w } a .wWaiting
@@ -115,24 +119,26 @@ def stepWl (s : St) (e : WaitList.Ev) : Option St :=
       (WaitList.step s.wl e).map fun w => { s with wl := w, sigDone := upd s.sigDone a true }
     else none
   | .clearL a =>
-    -- a signal leaves its critical section after waking one waiter if there is one; a broadcast after waking all
-    if s.cpc a = .sCs ∧ ¬ (s.wl.q = [] ∨ (s.op a = .signal ∧ s.sigDone a = true)) then none else
-    (WaitList.step s.wl e).map fun w =>
-      let s1 := { s with wl := w }
-      if s.cpc a = .sCs then setC s1 a .sDone
-      else if s.cpc a = .wBadRel then setC s1 a .wBad
-      else if s.cpc a = .wWaiting ∧ w.pc a = .idle then setC s1 a .wRelock
-      else s1
+    if s.cpc a = .sCs then
+      -- a signal leaves its critical section after waking one waiter if there is one; a broadcast after waking all
+      if s.wl.q = [] ∨ (s.op a = .signal ∧ s.sigDone a = true) then
+        (WaitList.step s.wl e).map fun w => setC { s with wl := w } a .sDone
+      else none
+    else if s.cpc a = .wBadRel then (WaitList.step s.wl e).map fun w => setC { s with wl := w } a .wBad
+    else if s.cpc a = .wWaiting then
+      (WaitList.step s.wl e).map fun w => finishWait s w a
+    else none
   | .loadState a _ =>
-    (WaitList.step s.wl e).map fun w =>
-      let s1 := { s with wl := w }
-      if s.cpc a = .wWaiting ∧ w.pc a = .idle then setC s1 a .wRelock else s1
-  | .storeReady _ n =>
-    (WaitList.step s.wl e).map fun w =>
-      let s1 := { s with wl := w }
-      if s.cpc n = .wWaiting ∧ w.pc n = .idle then setC s1 n .wRelock else s1
-  | .storeBlocked _ | .timeCheck _ _ | .rm _ | .obsL _ =>
-    (WaitList.step s.wl e).map fun w => { s with wl := w }
+    if s.cpc a = .wWaiting then
+      (WaitList.step s.wl e).map fun w => finishWait s w a
+    else none
+  | .storeReady a n =>
+    if s.cpc a = .sCs then
+      (WaitList.step s.wl e).map fun w => finishWait s w n
+    else none
+  | .storeBlocked a | .timeCheck a _ | .rm a =>
+    if s.cpc a = .wWaiting then (WaitList.step s.wl e).map fun w => { s with wl := w } else none
+  | .obsL _ => (WaitList.step s.wl e).map fun w => { s with wl := w }
 
 def step (s : St) : Ev → Option St
   | .call a op => stepCall s a op
